@@ -265,6 +265,33 @@ func (m *evalModel) recordedDeps(v ssa.Value) bool {
 	return false
 }
 
+// recordedDepsX is recordedDeps for a value seen inside a helper predicate called from the dependency function.
+func (m *evalModel) recordedDepsX(v ssa.Value, arg func(ssa.Value) ssa.Value) bool {
+	if m.recordedDeps(v) {
+		return true
+	}
+	info := m.infoInDepsFn()
+	isInfo := func(x ssa.Value) bool {
+		x = arg(x)
+		if info != nil && x == info {
+			return true
+		}
+		if ld, ok := x.(*ssa.UnOp); ok && ld.Op == token.MUL && (info != nil && ld.X == info || m.InfoCell != nil && ld.X == m.InfoCell) {
+			return true
+		}
+		return x == ssa.Value(m.InfoCall)
+	}
+	if u, ok := v.(*ssa.UnOp); ok && u.Op == token.MUL {
+		if fa, ok := u.X.(*ssa.FieldAddr); ok && core.IsField(fa, pkgRoot, "targetInfo", "Dependencies") && isInfo(fa.X) {
+			return true
+		}
+	}
+	if f, ok := v.(*ssa.Field); ok && core.IsField(f, pkgRoot, "targetInfo", "Dependencies") && isInfo(f.X) {
+		return true
+	}
+	return false
+}
+
 // infoField: v is a load of field `name` of the target's info (from the info cell or directly from the call).
 func (m *evalModel) infoField(v ssa.Value, name string) bool {
 	u, ok := v.(*ssa.UnOp)
@@ -274,6 +301,32 @@ func (m *evalModel) infoField(v ssa.Value, name string) bool {
 		}
 	}
 	if f, ok := v.(*ssa.Field); ok && core.IsField(f, pkgRoot, "targetInfo", name) && f.X == ssa.Value(m.InfoCall) {
+		return true
+	}
+	return false
+}
+
+// infoFieldX is infoField for a value seen inside a helper predicate: arg maps the helper's values to Evaluate's.
+func (m *evalModel) infoFieldX(v ssa.Value, name string, arg func(ssa.Value) ssa.Value) bool {
+	if m.infoField(v, name) {
+		return true
+	}
+	isInfo := func(x ssa.Value) bool {
+		x = arg(x)
+		if x == m.InfoCell || x == ssa.Value(m.InfoCall) {
+			return m.InfoCell != nil || x == ssa.Value(m.InfoCall)
+		}
+		if ld, ok := x.(*ssa.UnOp); ok && ld.Op == token.MUL && m.InfoCell != nil && ld.X == m.InfoCell {
+			return true
+		}
+		return false
+	}
+	if u, ok := v.(*ssa.UnOp); ok && u.Op == token.MUL {
+		if fa, ok := u.X.(*ssa.FieldAddr); ok && core.IsField(fa, pkgRoot, "targetInfo", name) && isInfo(fa.X) {
+			return true
+		}
+	}
+	if f, ok := v.(*ssa.Field); ok && core.IsField(f, pkgRoot, "targetInfo", name) && isInfo(f.X) {
 		return true
 	}
 	return false
